@@ -92,128 +92,23 @@ Section Fresh.
   Theorem fs_refines : forall ops,
     (forall k k', wfb k -> wfb k' -> enc_key cfg k = enc_key cfg k' -> k = k') ->
     hist_ok (@Some (list N)) true spec_empty ops = true -> Forall (op_storable cfg) ops ->
-    forallb atomic_op ops = true ->
     (N.of_nat (length ops) < 2 ^ 254)%N ->
     fs_obs cfg (fstate0 cfg) ops = spec_run (@Some (list N)) true spec_empty ops.
   Proof.
-    intros ops EI OK ST AT CT. apply (fs_refines_from cfg base_ok EI); auto.
+    intros ops EI OK ST CT. apply (fs_refines_from cfg base_ok EI); auto.
     constructor; simpl; auto.
     - apply fresh_good.
-    - intros name. destruct (fs_lookup (fs_fresh cfg) (stage_path (f_base cfg) name)) eqn:X; auto.
+    - intros name HN. exfalso. apply HN.
+      destruct (fs_lookup (fs_fresh cfg) (stage_path (f_base cfg) name)) eqn:X; auto.
       apply fs_fresh_lookup in X. destruct X as [_ X]. unfold stage_path in X. rewrite app_length in X. simpl in X. lia.
     - intros k d [_ [K _]]. destruct (fs_lookup (fs_fresh cfg) d) eqn:X; auto.
       apply fs_fresh_lookup in X. destruct X as [_ X]. rewrite (keypath_length cfg k d K) in X.
       unfold keylen in X. destruct (f_shard cfg); simpl in X; lia.
+    - intros sid sp H. destruct sid; discriminate.
+    - intros sid H. destruct sid; discriminate.
+    - intros i j sp H. destruct i; discriminate.
   Qed.
 End Fresh.
-
-(* ------------------------------------------------------------------ every system call keeps the tree well-formed *)
-
-Lemma walk_ok_dirs : forall f rest pre, walk_from f pre rest = Ok tt ->
-  forall n, (0 < n <= length rest)%nat -> fs_lookup f (pre ++ firstn n rest) = Some Dir.
-Proof.
-  induction rest; intros pre H n Hn; simpl in *. lia.
-  destruct (name_max <? lenN a)%N; try discriminate.
-  destruct (fs_lookup f (pre ++ [a])) as [[c|]|] eqn:L; try discriminate.
-  destruct n; try lia. destruct n. simpl. auto.
-  simpl. specialize (IHrest (pre ++ [a]) H (S n)). rewrite <- app_assoc in IHrest. apply IHrest. lia.
-Qed.
-
-Lemma resolve_parent : forall f p x, p <> [] -> resolve f p = Ok x -> fs_lookup f (dirname p) = Some Dir.
-Proof.
-  intros f p x N R. rewrite resolve_unfold in R by auto.
-  destruct (has_nul p); try discriminate.
-  destruct (walk_from f [] (dirname p)) as [[]|e] eqn:W; try discriminate.
-  destruct (dirname p) as [|c q] eqn:D. reflexivity.
-  rewrite <- (firstn_all (c :: q)). apply (walk_ok_dirs f (c :: q) [] W). simpl. lia.
-Qed.
-
-Lemma wf_set_leaf : forall f p n, fs_wf f -> p <> [] -> fs_lookup f (dirname p) = Some Dir ->
-  (forall c, n = File c -> fs_lookup f p <> Some Dir) ->
-  (n = Dir -> fs_lookup f p = None) ->
-  fs_wf (fs_set f p n).
-Proof.
-  intros f p n W PN PAR HF HD q m QN L.
-  assert (DP : dirname p <> p).
-  { intros X. apply (f_equal (@length _)) in X. destruct (exists_last PN) as [a [l E]]. rewrite E in X.
-    rewrite dirname_snoc in X. rewrite app_length in X. simpl in X. lia. }
-  destruct (path_eqb p q) eqn:E.
-  - apply path_eqb_eq in E. subst q. rewrite lookup_set_other; auto.
-  - apply path_eqb_neq in E. rewrite lookup_set_other in L by auto.
-    pose proof (W q m QN L) as PQ.
-    destruct (path_eqb p (dirname q)) eqn:E2.
-    + apply path_eqb_eq in E2. rewrite <- E2. rewrite <- E2 in PQ.
-      destruct n as [c|].
-      * exfalso. eapply HF; eauto.
-      * rewrite HD in PQ; auto. discriminate.
-    + apply path_eqb_neq in E2. rewrite lookup_set_other; auto.
-Qed.
-
-Lemma wf_remove_file : forall f p c, fs_wf f -> fs_lookup f p = Some (File c) -> fs_wf (fs_remove f p).
-Proof.
-  intros f p c W LP q m QN L.
-  destruct (path_eqb p q) eqn:E.
-  - apply path_eqb_eq in E. subst q. rewrite lookup_remove_same in L. discriminate.
-    eapply lookup_file_nonnil; eauto.
-  - apply path_eqb_neq in E. rewrite lookup_remove_other in L by auto.
-    pose proof (W q m QN L) as PQ. rewrite lookup_remove_other; auto.
-    intros X. rewrite <- X in PQ. congruence.
-Qed.
-
-Lemma sys_exec_wf : forall f s, fs_wf f -> fs_wf (fst (sys_exec f s)).
-Proof.
-  intros f s W. destruct s; simpl.
-  - destruct (resolve f p) as [[n|]|e]; simpl; auto.
-  - destruct (resolve f p) as [[n|]|e]; simpl; auto.
-  - destruct (resolve f p) as [[n|]|e]; simpl; auto.
-  - destruct (resolve f p) as [[n|]|e] eqn:R; simpl; auto.
-    destruct (resolve_none f p R) as [PN L].
-    apply wf_set_leaf; [exact W|exact PN|eapply resolve_parent; eauto| |].
-    + intros c0 _. rewrite L. discriminate.
-    + intros X. discriminate.
-  - destruct (fs_lookup f p) as [[old|]|] eqn:L; simpl; auto.
-    assert (PN : p <> []) by (eapply lookup_file_nonnil; eauto).
-    apply wf_set_leaf; [exact W|exact PN|eapply (W p); eauto| |].
-    + intros c0 _. rewrite L. discriminate.
-    + intros X. discriminate.
-  - auto.
-  - destruct (resolve f p) as [[[c|]|]|e] eqn:R; simpl; auto.
-    apply resolve_some in R.
-    assert (PN : p <> []) by (eapply lookup_file_nonnil; eauto).
-    assert (WR : fs_wf (fs_remove f p)) by (eapply wf_remove_file; eauto).
-    destruct (resolve f q) as [[[c'|]|]|e] eqn:R2; simpl; auto.
-    + pose proof (resolve_some f q _ R2) as LQ.
-      assert (QN : q <> []) by (eapply lookup_file_nonnil; eauto).
-      assert (PAR : fs_lookup f (dirname q) = Some Dir) by (eapply resolve_parent; eauto).
-      assert (DQ : p <> dirname q) by (intros X; rewrite <- X in PAR; congruence).
-      apply wf_set_leaf; [exact WR|exact QN| | |].
-      * rewrite lookup_remove_other; auto.
-      * intros c0 _. destruct (path_eqb p q) eqn:PQ.
-        -- apply path_eqb_eq in PQ. subst q. rewrite lookup_remove_same by auto. discriminate.
-        -- apply path_eqb_neq in PQ. rewrite lookup_remove_other by auto. rewrite LQ. discriminate.
-      * intros X. discriminate.
-    + destruct (resolve_none f q R2) as [QN LQ].
-      assert (PQ : p <> q) by (intros X; subst; congruence).
-      assert (PAR : fs_lookup f (dirname q) = Some Dir) by (eapply resolve_parent; eauto).
-      assert (DQ : p <> dirname q) by (intros X; rewrite <- X in PAR; congruence).
-      apply wf_set_leaf; [exact WR|exact QN| | |].
-      * rewrite lookup_remove_other; auto.
-      * intros c0 _. rewrite lookup_remove_other by auto. rewrite LQ. discriminate.
-      * intros X. discriminate.
-  - destruct (resolve f p) as [[n|]|e] eqn:R; simpl; auto.
-    destruct (resolve_none f p R) as [PN L].
-    apply wf_set_leaf; [exact W|exact PN|eapply resolve_parent; eauto| |].
-    + intros c0 X. discriminate.
-    + intros _. exact L.
-  - destruct (resolve f p) as [[[c|]|]|e] eqn:R; simpl; auto.
-    apply resolve_some in R. eapply wf_remove_file; eauto.
-Qed.
-
-Lemma fail_effect_wf : forall f s part, fs_wf f -> fs_wf (fail_effect f s part).
-Proof.
-  intros f s part W. destruct s; simpl; auto.
-  apply (sys_exec_wf f (SWrite p (firstn part c)) W).
-Qed.
 
 (* ------------------------------------------------------------------ nothing a writer does touches the base chain or .temp *)
 
